@@ -125,3 +125,150 @@ Proof.
   - intros s f outer Hd. unfold await_fut. rewrite Hd. reflexivity.
 Qed.
 Print Assumptions C01_first_step_equiv.
+
+(* ------------------------------------------------------------------------------------------
+   Whole runs: eager start = plain task, for coroutines whose behaviour is determined by what
+   they await.  Proofs: Sched/FutMono.v (futures are write-once), Sched/EagerRunOth.v (what the
+   code of other tasks leaves alone), Sched/EagerRun.v (the tracking invariant), Sched/EagerRunThm.v.
+
+   Vocabulary (EagerRun.v):
+     AD P c          c is a tree of Ret / Raise / log / `await` of a future f with P f / sleep(0),
+                     branching arbitrarily on the replies (all try/except/finally shapes included)
+     ref_run c val   the reference run: c run with every `await f` answered by val f - a pure
+                     function (list of logged numbers, final reply); no loop, no task, no schedule
+     agree P s val   every finished future f with P f holds exactly val f in s (result or
+                     exception; a cancelled one is outside the domain)
+     evlog tn n0 s   the log entries of s from position n0 on that carry task tn's tag
+     calm_run tn s l run-checked: at every action tn's _must_cancel is clear, and once its future is
+                     done the task is finished and is not stepped again
+     task_outcome r  the state Task.__step gives the task's future for the coroutine's outcome r
+     Inv09 / InvC    the partition invariant of C09 (holds in every reachable state, Inv09_run)  *)
+From Asynkit Require Import Sched.PartTables Sched.PartitionRun Sched.TaskFrame Sched.FutMono
+     Sched.EagerRunOth Sched.EagerRun Sched.EagerRunThm.
+
+(* a future's state is written once: through every action of every run (and inside every step,
+   FutMono.FM_exec / FM_step_task), for all programs, a future that is not pending keeps its
+   state, every future keeps its owner, and a stored _cancelled_exc is a CancelledError *)
+Theorem C01_futures_write_once :
+  forall acts s, let s' := fold_left do_action acts s in
+  length (futs s) <= length (futs s') /\
+  forall f, f < length (futs s) ->
+    fowner (getf s' f) = fowner (getf s f) /\
+    (fstate_ (getf s f) <> FPending -> fstate_ (getf s' f) = fstate_ (getf s f)) /\
+    (forall e, fcexc (getf s' f) = Some e -> is_cancel e = true \/ fcexc (getf s f) = Some e).
+Proof.
+  intros acts s s'. destruct (FM_actions acts s) as (A & B & _). split; [exact A|].
+  intros f Hf. exact (B f Hf).
+Qed.
+Print Assumptions C01_futures_write_once.
+
+(* what `await f` (the InFut frame) replies: resumed by send(None) it replies what the finished
+   future holds - the value, the exception, or for a cancelled future its stored CancelledError
+   once and a plain CancelledError afterwards; resumed by throw(e) (the wake-up of a failed or
+   cancelled future, a cancel(), a task_throw) it replies e *)
+Theorem C01_await_reply :
+  forall t f inp s,
+  frame_resume t (InFut f) inp s =
+  match inp with
+  | RExc e => (s, LDone (RExc e))
+  | RVal _ =>
+      match fstate_ (getf s f) with
+      | FResult v => (s, LDone (RVal v))
+      | FExc e => (s, LDone (RExc e))
+      | FCancelled =>
+          match fcexc (getf s f) with
+          | Some e => (setf s f (getf s f <| fcexc := None |>), LDone (RExc e))
+          | None => (s, LDone (RExc ECancelled))
+          end
+      | FPending => (s, LDone (RExc (ERuntime rt_await_not_used)))
+      end
+  end.
+Proof.
+  intros t f inp s. destruct inp as [v|e]; [|reflexivity]. cbn [frame_resume]. unfold fdone, fut_result.
+  destruct (fstate_ (getf s f)); try reflexivity. destruct (fcexc (getf s f)); reflexivity.
+Qed.
+Print Assumptions C01_await_reply.
+
+(* THE PLAIN START.  The body c is spawned as a C task (create_task, PriorityTask, ...) at any
+   loop boundary of any run; then any actions.  If the run keeps tn calm and tn finishes, the
+   events it logged and the state of its future are those of the reference run on the futures'
+   values - whatever the other tasks, the loop kind and the schedule were *)
+Theorem C01_plain_is_reference :
+  forall qok, QSpec qok -> forall (P : nat -> Prop) s how c acts val,
+  Inv09 qok s -> how <> SPy -> AD P c -> (forall f, P f -> f < length (futs s)) ->
+  let tn := length (tasks s) in
+  let s1 := do_action s (ASpawn how c) in
+  let sf := fold_left do_action acts s1 in
+  actions_ok s1 acts -> calm_run tn s1 acts -> agree P sf val ->
+  tcont_ (gett sf tn) = TFin ->
+  map snd (evlog tn (length (log s)) sf) = fst (ref_run c val) /\
+  fstate_ (getf sf (tfut (gett sf tn))) = task_outcome (snd (ref_run c val)).
+Proof. exact plain_run. Qed.
+Print Assumptions C01_plain_is_reference.
+
+(* THE EAGER START.  At any point of any run where a running task t executes `eager(c)` (state s
+   inside t's step, any continuation k of the caller): [s1] is the state after the synchronous
+   prefix, [s'] the state at the end of the caller's activation, then the caller's step ends and
+   any actions follow.  Finished synchronously: the prefix events are the whole reference trace
+   and the returned future holds the reference outcome.  Suspended: prefix events followed by
+   the events the continuation task tn logs are the reference trace, and tn's future holds the
+   reference outcome *)
+Theorem C01_eager_equals_plain :
+  forall qok, QSpec qok -> forall (P : nat -> Prop) s t c k acts val,
+  InvC qok (Some t) s -> current s = Some t ->
+  AD P c -> coro_ok (length (blocks s)) (Spawn SEager c k) ->
+  (forall f, P f -> f < length (futs s)) ->
+  forall s1 o1 s' o,
+  exec t c s = (s1, o1) ->
+  exec t (Spawn SEager c k) s = (s', o) ->
+  let sb := finish_step t s' o <| current := None |> in
+  let sf := fold_left do_action acts sb in
+  let tn := length (tasks s1) in
+  let pre := map snd (skipn (length (log s)) (log s1)) in
+  let fid := length (futs s1) in
+  actions_ok sb acts -> agree P sf val ->
+  match o1 with
+  | ODone _ =>
+      pre = fst (ref_run c val) /\ fstate_ (getf sf fid) = reply_fstate (snd (ref_run c val))
+  | OYield _ _ _ =>
+      calm_run tn sb acts -> tcont_ (gett sf tn) = TFin ->
+      pre ++ map snd (evlog tn (length (log s1)) sf) = fst (ref_run c val) /\
+      fstate_ (getf sf (tfut (gett sf tn))) = task_outcome (snd (ref_run c val))
+  end.
+Proof. exact eager_run. Qed.
+Print Assumptions C01_eager_equals_plain.
+
+(* eager = plain: any eager run (suspending case) and any plain run of the same body - different
+   parents, environments, loop kinds, schedules - that resolve the awaited futures to the same
+   values [val] give the same events and the same state of the awaitable *)
+Theorem C01_same_as_task :
+  forall (P : nat -> Prop) c val,
+  (* the eager run *)
+  forall qok1, QSpec qok1 -> forall s t k acts s1 y frs kc s' o,
+  InvC qok1 (Some t) s -> current s = Some t -> AD P c ->
+  coro_ok (length (blocks s)) (Spawn SEager c k) -> (forall f, P f -> f < length (futs s)) ->
+  exec t c s = (s1, OYield y frs kc) -> exec t (Spawn SEager c k) s = (s', o) ->
+  let sb := finish_step t s' o <| current := None |> in
+  let sf := fold_left do_action acts sb in
+  let tn := length (tasks s1) in
+  actions_ok sb acts -> agree P sf val -> calm_run tn sb acts -> tcont_ (gett sf tn) = TFin ->
+  (* the plain run *)
+  forall qok2, QSpec qok2 -> forall z how acts2,
+  Inv09 qok2 z -> how <> SPy -> (forall f, P f -> f < length (futs z)) ->
+  let tp := length (tasks z) in
+  let z1 := do_action z (ASpawn how c) in
+  let zf := fold_left do_action acts2 z1 in
+  actions_ok z1 acts2 -> calm_run tp z1 acts2 -> agree P zf val -> tcont_ (gett zf tp) = TFin ->
+  map snd (skipn (length (log s)) (log s1)) ++ map snd (evlog tn (length (log s1)) sf) =
+    map snd (evlog tp (length (log z)) zf) /\
+  fstate_ (getf sf (tfut (gett sf tn))) = fstate_ (getf zf (tfut (gett zf tp))).
+Proof.
+  intros P c val qok1 QS1 s t k acts s1 y frs kc s' o I Hc Hc0 Hok R1 E1 E sb sf tn Ha A Hq Fin
+         qok2 QS2 z how acts2 Iz Hh R2 tp z1 zf Ha2 Hq2 A2 Fin2.
+  destruct (eager_run qok1 QS1 P s t c k acts val I Hc Hc0 Hok R1 s1 _ s' o E1 E Ha A Hq Fin) as [T1 O1].
+  destruct (plain_run qok2 QS2 P z how c acts2 val Iz Hh Hc0 R2 Ha2 Hq2 A2 Fin2) as [T2 O2].
+  split.
+  - transitivity (fst (ref_run c val)); [exact T1|symmetry; exact T2].
+  - transitivity (task_outcome (snd (ref_run c val))); [exact O1|symmetry; exact O2].
+Qed.
+Print Assumptions C01_same_as_task.
